@@ -159,6 +159,7 @@ def install(reg):
     reg.sym_methods[RFCObj] = rfc_method
     reg.sym_methods[EntropyObj] = entropy_method
     install_ec(reg)
+    install_path(reg)
 
 
 TRUSTED = ['fastecdsa._ecdsa.sign / verify implement standard secp256k1 ECDSA (uninterpreted: ecdsa_sign_r/s, ecdsa_verify)',
@@ -292,3 +293,43 @@ def install_ec(reg):
 TRUSTED += ['secp256k1 group operations (k*G, point addition) are uninterpreted; fastecdsa.keys.get_public_key / Point.__add__ are assumed '
             'to compute them (spec/ec.py is the native reference used in replays)',
             'hmac.new(key, msg, sha512).digest() is an uninterpreted 64-byte function of (key, msg)']
+
+
+# ---------------------------------------------------------------------------------------------------
+# derivation path items: str(number) + marker, with the number symbolic
+
+class SPathItem(Sym):
+    """the text  str(n) + marker  (marker one of '', "'", h, H, p, P) for a symbolic non-negative n"""
+    pytype = str
+
+    def __init__(self, n, marker):
+        self.n, self.marker = n, marker
+
+
+def path_item(n, marker):
+    """native: the path item text.  Under the verifier (model below): an SPathItem."""
+    return str(n) + marker
+
+
+def m_path_item(ip, args, kwargs):
+    n, marker = args
+    if isinstance(n, int):
+        return str(n) + marker
+    return SPathItem(int_term(n), marker)
+
+
+def pathitem_getitem(ip, obj, idx):
+    if idx == -1:
+        if obj.marker:
+            return obj.marker
+        return SStr(items=[z3.simplify(48 + obj.n % 10)])       # last decimal digit
+    if isinstance(idx, slice) and idx.start is None and idx.stop == -1 and idx.step is None and obj.marker:
+        return models.SDecStr(obj.n)
+    raise Unsupported('path item subscript %r' % (idx,))
+
+
+def install_path(reg):
+    reg.models[path_item] = m_path_item
+    reg.sym_getitem[SPathItem] = pathitem_getitem
+    reg.sym_int[SPathItem] = lambda ip, v: (wrap_int(v.n) if not v.marker else pyraise(ValueError, 'invalid literal for int()'))
+    reg.sym_truth[SPathItem] = lambda ip, v: True
